@@ -61,6 +61,8 @@ PAIRS = [
     {"start_preconditioning_step": 0, "graft_type": 0},
     {"weight_decay": 0.25, "moving_average_for_momentum": True},
     {"exponent_override": 2, "precondtioner_type": 3},
+    {"statistics_compute_steps": 2, "preconditioning_compute_steps": 3},
+    {"statistics_compute_steps": 3, "preconditioning_compute_steps": 2},
 ]
 
 
@@ -150,7 +152,11 @@ def plan(tier, seed):
           "the reported error (C01/C03 judge those)",
           "tolerance 2e-4 of the leaf's reference max-norm",
           "graft NONE with coupled learning rate is excluded (undefined by "
-          "the documentation)"],
+          "the documentation)",
+          "before every task the neighbouring configurations (each single "
+          "deviation reverted) are constructed and initialised in the same "
+          "process, and once more afterwards, so state hidden at module "
+          "level shows up as a deviation of the task or of the neighbour"],
       "timeout": 3000,
   }
 
@@ -167,6 +173,55 @@ def run_task(task):
   shapes = TREES[task["tree"]]
   mode = task["mode"]
   full = dict(ref.BASE, **cfg)
+  alpha0 = ds.grad_trees(shapes, ["gA", "gB"], (0, ref.BASE["block_size"]),
+                         task["seed"])
+
+  def neighbours():
+    """The task's configuration with each single deviation reverted."""
+    out = []
+    for k in cfg:
+      c = dict(cfg)
+      del c[k]
+      if not excluded(c):
+        out.append(c)
+    return out or [{}]
+
+  def neighbour_probe(tag):
+    """Process-history dimension: other optimizers live in the same process.
+    Before the task the neighbouring configurations are constructed and
+    initialised (no state is shared with them, so this must be invisible);
+    afterwards they are initialised again and the layout of their statistics
+    must still be the documented one."""
+    for c in neighbours():
+      try:
+        br = ds.Runner(c, shapes, mode)
+        bs = br.init()
+        acc.transitions += 1
+        if tag == "after":
+          rr = ref.RefShampoo(c, br.params_np, "rep")
+          for n in shapes:
+            got = [tuple(np.shape(x)) for x in
+                   br.leaf_stats(bs, n)["statistics"]]
+            want = [tuple(x.shape) for x in rr.leaves[n].stats]
+            if got != want:
+              acc.outcome("viol_process_history")
+              acc.violation(
+                  "C02|%s|after|%s" % (task["name"], n),
+                  "an optimizer with configuration %s built after this "
+                  "task's optimizer in the same process has statistics %s "
+                  "for leaf %s, documented %s: something outside the state "
+                  "pytree is shared" % (c, got, n, want),
+                  {"cfg": cfg, "neighbour": c, "tree": task["tree"],
+                   "mode": mode, "leaf": n})
+              return
+        acc.outcome("neighbour_probe_ok")
+      except Exception as e:  # pylint: disable=broad-except
+        acc.violation("C02|%s|%s|exc" % (task["name"], tag), "neighbour "
+                      "probe raised %s: %s" % (type(e).__name__,
+                                               str(e)[:200]),
+                      {"cfg": cfg, "neighbour": c})
+
+  neighbour_probe("before")
   try:
     runner = ds.Runner(cfg, shapes, mode)
     s0 = runner.init()
@@ -272,6 +327,7 @@ def run_task(task):
                     "update_v": np.asarray(u[list(shapes)[0]]).ravel()[:3]
                     .tolist()})
     frontier = nxt
+  neighbour_probe("after")
   acc.extra["worst_rel"] = worst[0]
   acc.extra["worst_stat_dev"] = worst_stat[0]
   acc.outcome("kappa_le_1e4" if max(x[1].kappa for x in frontier or
